@@ -33,6 +33,8 @@ type c02Case struct {
 	Intermediate  string   `json:"intermediate"` // layout | caller | none
 	SecondFirst   bool     `json:"second_first"`        // the other step precedes s0 in the layout
 	ForeignInter  bool     `json:"foreign_intermediate"` // the foreign CA is handed over as an additional intermediate
+	MultiValued   bool     `json:"multi_valued"`         // constraint attributes with several values in non-sorted order
+	ExplicitRoots bool     `json:"explicit_roots"`       // C10 only: the constraint names all layout roots (two, descending order)
 	Repeats       int      `json:"repeats"`
 }
 
@@ -192,7 +194,7 @@ func init() {
 
 func c02PKI() hx.PKISpec {
 	leaf := func(name, issuer, validity, org string) hx.PKICert {
-		return hx.PKICert{Name: name, Issuer: issuer, Validity: validity, KeyKind: "p256", CN: name, Orgs: []string{org}}
+		return hx.PKICert{Name: name, Issuer: issuer, Validity: validity, KeyKind: "p256", CN: name, Orgs: []string{org, "zeta"}, DNS: []string{"b.example", "a.example"}}
 	}
 	return hx.PKISpec{Certs: []hx.PKICert{
 		{Name: "root", IsCA: true, Validity: "valid", KeyKind: "p256"},
@@ -202,7 +204,7 @@ func c02PKI() hx.PKISpec {
 		leaf("leaf2", "inter", "valid", "acme"),
 		leaf("leaf-expired", "inter", "expired", "acme"),
 		leaf("leaf-foreign", "foreignroot", "valid", "acme"),
-		leaf("leaf-mismatch", "inter", "valid", "evil"),
+		{Name: "leaf-mismatch", Issuer: "inter", Validity: "valid", KeyKind: "p256", CN: "leaf-mismatch", Orgs: []string{"acme", "evil"}, DNS: []string{"b.example", "a.example"}},
 		leaf("leaf-selfsigned", "", "valid", "acme"),
 	}}
 }
@@ -226,7 +228,20 @@ func c02World(c c02Case) (hx.World, map[string][]string, error) {
 		ik := hx.MKeyFromLib(certs["inter"].KeyObject())
 		lay.IntermediateCas = hx.MKeys{ik.KeyID: ik}
 	}
-	constraint := hx.MConstraint{CommonName: "*", DNSNames: []string{"*"}, Emails: []string{"*"}, Organizations: []string{"acme"}, Roots: []string{"*"}, URIs: []string{"*"}}
+	constraint := hx.MConstraint{CommonName: "*", DNSNames: []string{"*"}, Emails: []string{"*"}, Organizations: []string{"zeta", "acme"}, Roots: []string{"*"}, URIs: []string{"*"}}
+	if c.MultiValued {
+		constraint.DNSNames = []string{"b.example", "a.example"}
+		constraint.Emails = []string{}
+	}
+	if c.ExplicitRoots {
+		r2 := hx.MKeyFromLib(certs["foreignroot"].KeyObject())
+		lay.RootCas[r2.KeyID] = r2
+		ids := []string{rootKey.KeyID, r2.KeyID}
+		if ids[0] < ids[1] {
+			ids[0], ids[1] = ids[1], ids[0]
+		}
+		constraint.Roots = ids
+	}
 	s0 := hx.MStep{Type: "step", Name: "s0", ExpMat: [][]string{{"ALLOW", "*"}}, ExpProd: [][]string{{"ALLOW", "*"}},
 		PubKeys:     []string{hx.PoolKey(c02A1).KeyID, hx.PoolKey(c02A2).KeyID, hx.PoolKey(c02A3).KeyID, hx.PoolKey(c02L).KeyID},
 		Constraints: []hx.MConstraint{constraint}, ExpCommand: []string{"build"}, Threshold: c.Threshold}
@@ -376,7 +391,7 @@ func c02Eval(c c02Case, r *hx.Rec) error {
 	sort.Strings(sorted)
 	r.Label("second_step=%v/first=%v", c.SecondStep, c.SecondStep && c.SecondFirst)
 	r.Label("foreign_intermediate=%v", c.ForeignInter)
-	r.Key("%d|%v%v%v|%s|%s|%s", c.Threshold, c.SecondStep, c.SecondFirst, c.ForeignInter, c.LayoutWrapper, c.Intermediate, strings.Join(sorted, ","))
+	r.Key("%d|%v%v%v%v|%s|%s|%s", c.Threshold, c.SecondStep, c.SecondFirst, c.ForeignInter, c.MultiValued, c.LayoutWrapper, c.Intermediate, strings.Join(sorted, ","))
 
 	var first *bool
 	for rep := 0; rep < c.Repeats; rep++ {
@@ -471,6 +486,7 @@ func c02Gen(t *rapid.T) c02Case {
 		Repeats:       hx.Pick(8, 32),
 		SecondFirst:   rapid.Bool().Draw(t, "secondfirst"),
 		ForeignInter:  rapid.Bool().Draw(t, "foreigninter"),
+		MultiValued:   rapid.Bool().Draw(t, "multivalued"),
 	}
 	c.Kinds = rapid.SliceOfNDistinct(rapid.SampledFrom(c02KindNames), 0, 5, rapid.ID[string]).Draw(t, "kinds")
 	return c
@@ -503,7 +519,7 @@ func c02Exhaustive(t *testing.T) {
 				continue
 			}
 			c := c02Case{Threshold: th, SecondStep: n%3 == 0, LayoutWrapper: []string{"legacy", "dsse"}[n%2], Intermediate: []string{"layout", "caller"}[(n/2)%2],
-				Kinds: append([]string{}, cur...), Repeats: hx.Pick(6, 16), SecondFirst: n%5 < 2, ForeignInter: (n/3)%2 == 0}
+				Kinds: append([]string{}, cur...), Repeats: hx.Pick(6, 16), SecondFirst: n%5 < 2, ForeignInter: (n/3)%2 == 0, MultiValued: (n/7)%2 == 0}
 			r := &hx.Rec{}
 			err := c02Eval(c, r)
 			r.Label("enumerated")
